@@ -217,6 +217,10 @@ Fixpoint cstr (t : list Z) : option (list Z) :=
               match cstr r with Some s => Some (c :: s) | None => None end
   end.
 
+(* what the application sees of a record: the three numbers and the target as a C string *)
+Definition rr_view (r : srv_rr) : Z * Z * Z * option (list Z) :=
+  (rr_priority r, rr_weight r, rr_port r, cstr (rr_target r)).
+
 Inductive lres : Type :=
 | LDone (status : Z) (l : list srv_rr)   (* return value and *srv_rr_list (head first) *)
 | LOOB
